@@ -7,3 +7,6 @@ package encoder
 func VerifSlot(kind uint8, base uintptr, idx uint32) {}
 func verifPtrs(c *RuntimeContext)                    {}
 func verifInit(c *RuntimeContext)                    {}
+
+func verifCacheGate(point string, typeptr uintptr)                                 {}
+func verifCacheReturn(path string, typeptr uintptr, index uintptr, set *OpcodeSet) {}
